@@ -1,7 +1,7 @@
 (* C03 — mask: exact residual signature after n positionals and named arguments. *)
 From Sigtools.Model Require Import Base Bind Roles Algebra.
 From Sigtools.Model Require Import Universe.
-From Sigtools.Proofs Require Import SmallModel Basics Deciders SweepDefs SweepDefs2 Bounded2 MaskLaws MaskExact SweepDefs3 Bounded3 MaskNamesLib MaskNames MaskAlgebra MaskNamesProps.
+From Sigtools.Proofs Require Import SmallModel Basics Deciders SweepDefs SweepDefs2 Bounded2 MaskLaws MaskExact SweepDefs3 Bounded3 MaskNamesLib MaskNames MaskAlgebra MaskNamesProps MaskHide.
 
 Theorem C03_wf s n names0 h r : mask s n names0 h = Ok r -> validate (params r) = true.
 Proof. exact (mask_wf s n names0 h r). Qed.
@@ -113,4 +113,15 @@ Print Assumptions C03_mask_compose.
 Theorem C03_mask_perm : forall (s : sigT) (n : nat) (names names' : list name) (h : hideflags), valid_sig (params s) = true -> Permutation.Permutation names names' -> perm_rel (mask s n names h) (mask s n names' h).
 Proof. exact @MaskAlgebra.mask_perm. Qed.
 Print Assumptions C03_mask_perm.
+
+
+(* ---- hide flags, all valid signatures and all 16 flag sets (Proofs/MaskHide.v): which class each flag removes
+   (closed form) and soundness with hidden arguments chosen by the caller of the inner function ---- *)
+Theorem C03_mask_hide_sound : forall (s : sigT) (n : nat) (names0 : list name) (h : hideflags), valid_sig (params s) = true -> NoDup names0 -> match mask s n names0 h with | Ok r => forall c : call, disjointb (kws c) (hide_names h names0) = true -> noncolliding c (params r) [params s] = true -> accepts (params r) c = true -> exists (m : nat) (K : list name), (h_args h = false -> m = n) /\ (h_kwargs h = false -> K = []) /\ disjointb K (kws c) = true /\ accepts (params s) {| npos := m + npos c; kws := hide_names h names0 ++ kws c ++ K |} = true | Err e => e = ValueErr end.
+Proof. exact @MaskHide.mask_hide_sound. Qed.
+Print Assumptions C03_mask_hide_sound.
+
+Theorem C03_mask_hide_shape : forall (s : sigT) (n : nat) (names0 : list name) (h : hideflags) (r : sigT), valid_sig (params s) = true -> mask s n names0 h = Ok r -> if h_kwargs h then params r = MaskNamesLib.blk (hide_pos s n h) [] (hide_va s h) [] None else exists kwo_f : list param, params r = MaskNamesLib.blk (hide_pos s n h) (MaskAlgebra.takew (MaskAlgebra.nh names0) (hide_pok s n h)) (MaskAlgebra.va_form names0 (hide_pok s n h) (hide_va s h)) kwo_f (hide_vk s h) /\ Permutation.Permutation kwo_f (MaskAlgebra.kwo_form names0 (hide_pok s n h) (kwoargs (sort_params s))).
+Proof. exact @MaskHide.mask_hide_shape. Qed.
+Print Assumptions C03_mask_hide_shape.
 
